@@ -57,16 +57,16 @@ CHECKS += [
   "text": "Decides for all 35 concrete Grid classes x all visible methods and for all histories of queries/reassignments: no read of an unassigned field, no raw-field read under an overridden property, every writer of a memo's dependency resets the memo, index arrays from ball queries are integer or guarded, __getitem__ admits NumPy integers and re-wraps with all stored parameters, both radius branches use the same sources. The geometric content of the ball query is delegated to cKDTree.",
   "note": _NOTE},
  {"id": "C11", "engine": "gridlint", "design_ref": "DESIGN.md 4/C11",
-  "technique": "static guard-dominance + sign abstract domain on the periodic local-grid code",
-  "text": "Decides three guards: accumulators that can be empty are tested before stacking (empty spheres), plane spacings provably non-negative (any sign of lattice vectors), no argument rejection beyond the plain grid without lattice vectors (one known finding: infinite radius, pinned by a test). Does NOT decide completeness/uniqueness of the image enumeration (geometric).",
+  "technique": "static guard-dominance + sign abstract domain + array-shape abstract interpretation over all (dimension x lattice-count x wrap) configurations",
+  "text": "Decides: the constructor and the pre-loop part of get_localgrid are free of broadcast/matmul/index/empty-reduction failures and keep one row per lattice vector in all 21 admissible shape configurations (flat 1-D or (N,D) points, 0..D lattice vectors, wrap on/off); and three guards: accumulators that can be empty are tested before stacking (empty spheres), plane spacings provably non-negative (any sign of lattice vectors), no argument rejection beyond the plain grid without lattice vectors (one known finding: infinite radius, pinned by a test). Does NOT decide completeness/uniqueness of the image enumeration (geometric).",
   "note": _NOTE},
  {"id": "C13", "engine": "gridlint", "design_ref": "DESIGN.md 4/C13",
   "technique": "static guard-dominance analysis of third-axis constructs + symbolic array-shape abstract interpretation (per dimensionality) of the weight schemes",
   "text": "Decides the clause 'every documented weighting scheme (and the index maps) construct in both dimensions': every construct that only exists in 3-D is dominated by a test implying ndim == 3; and the tensor-layout clause for weights: in 2-D and 3-D every scheme returns the C-order flattening of an array with axes (shape[0], shape[1][, shape[2]]) (or a uniform vector), Tensor1DGrids krons its weights in the meshgrid('ij') order of its points. Does NOT decide index-map inversion arithmetic, weights summing to the volume, nearest point, molecule margin, cube round trip, interpolation (numerical).",
   "note": _NOTE},
  {"id": "C14", "engine": "gridlint", "design_ref": "DESIGN.md 4/C14",
-  "technique": "static name resolution of third-party references + branch-shape analysis of the order generator + dispatch agreement",
-  "text": "Decides: every NumPy/SciPy/SymPy attribute reference of the package resolves in the installed versions (~890 references); every (type, dim) branch of the order generator appends rows of the right width and returns the row table (dims 1, 2, 3); Grid.moments and the generator agree on the moment types and each type computes its integral once. Does NOT decide that entries equal the quadrature of their integrands.",
+  "technique": "static name resolution of third-party references + branch-shape analysis of the order generator + dispatch agreement + array-shape abstract interpretation of the moment routine for dimensions 1-3",
+  "text": "Decides: the Cartesian and radial moment code is free of broadcast/unpack/index failures for 1-, 2- and 3-dimensional grids and hard-wires no column count; every NumPy/SciPy/SymPy attribute reference of the package resolves in the installed versions (~890 references); every (type, dim) branch of the order generator appends rows of the right width and returns the row table (dims 1, 2, 3); Grid.moments and the generator agree on the moment types and each type computes its integral once. Does NOT decide that entries equal the quadrature of their integrands.",
   "note": _NOTE + " The checker imports numpy/scipy/sympy (never grid) to resolve names."},
  {"id": "C18", "engine": "gridlint", "design_ref": "DESIGN.md 4/C18",
   "technique": "static sibling-agreement by value numbering under the points<->weights substitution",
